@@ -59,14 +59,19 @@ theorem ri_lastAdd {s : TS} {sz : Int} {Hm Hp : Hist} (h : RI s sz Hm Hp) (t : I
 theorem ri_add {s : TS} {sz : Int} {Hm Hp : Hist} (h : RI s sz Hm Hp) (t v : Int) (hin : InI64 t)
     (hnb : addBehind s t = false) :
     ∃ Hm' Hp', RI (s.addWithTime (Obs.exact v) t) sz Hm' Hp' ∧ (s.addWithTime (Obs.exact v) t).n = s.n ∧
-      ∀ lo hi, sumIn lo hi Hm' + sumIn lo hi Hp' =
-        (if lo < t ∧ t ≤ hi then v else 0) + (sumIn lo hi Hm + sumIn lo hi Hp) := by
+      (∀ lo hi, sumIn lo hi Hm' + sumIn lo hi Hp' =
+        (if lo < t ∧ t ≤ hi then v else 0) + (sumIn lo hi Hm + sumIn lo hi Hp)) ∧
+      (t > s.pendingTime → Hm' = Hp ++ Hm ∧ Hp' = [(t, v)]) ∧
+      (¬ t > s.pendingTime → t > s.pendingTime + (-1) * s.size0 → Hm' = Hm ∧ Hp' = (t, v) :: Hp) ∧
+      (¬ t > s.pendingTime → ¬ t > s.pendingTime + (-1) * s.size0 → Hm' = (t, v) :: Hm ∧ Hp' = Hp) := by
   unfold TS.addWithTime
   obtain ⟨h0, hla⟩ := ri_lastAdd h t
   have hnb0 : addBehind (if t > s.lastAdd then { s with lastAdd := t } else s) t = false := by
     split <;> exact hnb
   have hn0 : (if t > s.lastAdd then { s with lastAdd := t } else s).n = s.n := by split <;> rfl
-  generalize (if t > s.lastAdd then { s with lastAdd := t } else s) = s0 at h0 hla hnb0 hn0
+  have hpt0 : (if t > s.lastAdd then { s with lastAdd := t } else s).pendingTime = s.pendingTime := by split <;> rfl
+  have hsize0 : (if t > s.lastAdd then { s with lastAdd := t } else s).size0 = s.size0 := by split <;> rfl
+  generalize (if t > s.lastAdd then { s with lastAdd := t } else s) = s0 at h0 hla hnb0 hn0 hpt0 hsize0
   simp only
   by_cases b1 : t > s0.pendingTime
   · -- new pending bucket
@@ -113,7 +118,8 @@ theorem ri_add {s : TS} {sz : Int} {Hm Hp : Hist} (h : RI s sz Hm Hp) (t v : Int
         · have := r.last p (by simpa using hp)
           rw [hl] at this; exact this
         · subst hp; exact hla
-    · intro lo hi
+    · refine ⟨?_, fun _ => ⟨rfl, rfl⟩, fun hc => absurd (hpt0 ▸ b1) hc, fun hc => absurd (hpt0 ▸ b1) hc⟩
+      intro lo hi
       rw [sumIn_append]
       simp only [sumIn]
       omega
@@ -147,7 +153,9 @@ theorem ri_add {s : TS} {sz : Int} {Hm Hp : Hist} (h : RI s sz Hm Hp) (t v : Int
           · exact r.last p (by simp [hp])
           · subst hp; exact hla
           · exact r.last p (by simp [hp])
-      · intro lo hi
+      · refine ⟨?_, fun hc => absurd (hpt0 ▸ hc) b1, fun _ _ => ⟨rfl, rfl⟩,
+          fun _ hc => absurd (by rw [← hpt0, ← hsize0, hsz0]; exact b2) hc⟩
+        intro lo hi
         simp only [sumIn]
         omega
     · -- merged straight into the levels
@@ -167,7 +175,9 @@ theorem ri_add {s : TS} {sz : Int} {Hm Hp : Hist} (h : RI s sz Hm Hp) (t v : Int
         rcases hp with hp | hp
         · subst hp; exact hla
         · exact r.last p hp
-      · intro lo hi
+      · refine ⟨?_, fun hc => absurd (hpt0 ▸ hc) b1,
+          fun _ hc => absurd (by rw [← hpt0, ← hsize0, hsz0] at hc; exact hc) b2, fun _ _ => ⟨rfl, rfl⟩⟩
+        intro lo hi
         simp only [sumIn]
         omega
 
@@ -368,7 +378,7 @@ theorem ri_run (sz : Int) (hZ : zeroTime % sz = 0) (ops : List Op) :
     | add t v =>
       simp only [timesInRange, Bool.and_eq_true, inI64, decide_eq_true_eq] at hin
       simp only [noAddBehind, Bool.and_eq_true, Bool.not_eq_true'] at hnb
-      obtain ⟨Hm', Hp', r', _, hs⟩ := ri_add h t v hin.1 hnb.1
+      obtain ⟨Hm', Hp', r', _, hs, _⟩ := ri_add h t v hin.1 hnb.1
       exact ih _ Hm' Hp' ((t, v) :: H0) r' hin.2 hnb.2 (by
         intro lo hi; rw [hs lo hi, hH lo hi]; simp only [sumIn])
     | total =>
